@@ -120,11 +120,19 @@ def plans(draw):
     for e in exp[2].entered:
         if e[1] is not None and e not in elems:
             elems.append(e)
+    # instances created on the way: their parameter formula is a failure point too
+    for sid in exp[2].created:
+        e = (tuple(sid[:-1]), None, tuple(sid[-1]))
+        if e not in elems:
+            elems.append(e)
     hist = [["formula_error", draw(st.sampled_from([True, True, False]))]]
     others = [["eval", list(q), cn, [draw(st.integers(0, 2))] * np_, None, "()"] for q, cn, np_ in info["cells"][:-1]]
     for e in draw(st.permutations(elems)):
-        k = int(e[1][1:])
-        tag = "F%d_" % k + (str(e[2][0]) if e[2] else "")
+        if e[1] is None:
+            tag = "PF_" + str(e[2][0])
+        else:
+            k = int(e[1][1:])
+            tag = "F%d_" % k + (str(e[2][0]) if e[2] else "")
         kind = draw(st.sampled_from(KINDS[:5]))
         pre = draw(st.integers(0, 3))
         if pre == 0:
